@@ -5,13 +5,15 @@ CONSTANTS
  Poll = 2
  Ticks = TRUE
  Defect = "noWait"
- MaxTime = 4
- MaxAtt = 3
- ShutTOs <- TOBoth
+ MaxTime = 3
+ MaxAtt = 2
+ ShutTOs <- TONever
  PCancel = {}
  Gates = {FALSE}
- DL1 <- DL24
- DL2s <- DLN3
+ DL1 <- DL2
+ DL2s <- DLN
+ W2 <- WT
+ LB2 <- LA
  W3 <- WT
  Res <- R3
 INVARIANTS ShutdownWaits
